@@ -40,29 +40,9 @@
 (* Mode "trace": one record per (element, direction) taken from real       *)
 (* objects; every reported Jacobian column is recomputed.                  *)
 (***************************************************************************)
-EXTENDS Integers, Sequences, FiniteSets, TLC, RatAlg, Json, IOUtils
+EXTENDS Integers, Sequences, FiniteSets, TLC, DualAlg, Json, IOUtils
 
 CONSTANTS Mode, Impl
-
-\* ------------------------------------------------------------------ dual numbers
-R(x) == RNorm(<<x[1], x[2]>>)
-RInv(x) == RNorm(<<x[2], x[1]>>)
-DD(a, b) == [v |-> a, d |-> b]
-DC(a) == [v |-> a, d |-> RI(0)]
-DAdd(a, b) == [v |-> RAdd(a.v, b.v), d |-> RAdd(a.d, b.d)]
-DSub(a, b) == [v |-> RSub(a.v, b.v), d |-> RSub(a.d, b.d)]
-DNeg(a) == [v |-> RNeg(a.v), d |-> RNeg(a.d)]
-DMul(a, b) == [v |-> RMul(a.v, b.v), d |-> RAdd(RMul(a.v, b.d), RMul(a.d, b.v))]
-DScale(c, a) == [v |-> RMul(c, a.v), d |-> RMul(c, a.d)]
-DDiv(a, b) == LET iv == RInv(b.v) IN
-              [v |-> RMul(a.v, iv), d |-> RMul(RSub(RMul(a.d, b.v), RMul(a.v, b.d)), RMul(iv, iv))]
-\* square root with the given root s of a.v
-DSqrt(a, s) == [v |-> s, d |-> RMul(a.d, RInv(RMul(RI(2), s)))]
-DDot3(a, b) == DAdd(DAdd(DMul(a[1], b[1]), DMul(a[2], b[2])), DMul(a[3], b[3]))
-\* derivative of the angle of the planar vector (x, y)
-AngleRate(x, y) == RMul(RSub(RMul(x.v, y.d), RMul(y.v, x.d)), RInv(RAdd(RMul(x.v, x.v), RMul(y.v, y.v))))
-\* a 3-vector and its change along the direction
-DV(a, da) == [i \in 1..3 |-> DD(R(a[i]), R(da[i]))]
 
 \* ------------------------------------------------------------------ layer 1
 TwoPoint(r) ==
